@@ -715,6 +715,7 @@ _BTree_set(BTree *self, PyObject *keyarg, PyObject *value,
     int childlength;    /* len(self->data[min].child) */
     int status;         /* our return value; and return value from callee */
     int self_was_empty; /* was self empty at entry? */
+    int key_is_node_key = 0; /* deleting the key that separates child min? */
 
     KEY_TYPE key;
     int copied = 1;
@@ -749,6 +750,16 @@ _BTree_set(BTree *self, PyObject *keyarg, PyObject *value,
     /* Find the right child to search, and hand the work off to it. */
     BTREE_SEARCH(min, self, key, goto Error);
     d = self->data + min;
+
+    if (!value && min)
+    {
+        /* A deletion may have to fix up the node key afterwards.  Find
+        * out now:  a comparison that fails after the child has deleted
+        * the key would leave the tree half updated.
+        */
+        TEST_KEY_SET_OR(key_is_node_key, key, d->key) goto Error;
+        key_is_node_key = !key_is_node_key;
+    }
 
 #ifdef PERSISTENT
     PER_READCURRENT(self, goto Error);
@@ -826,9 +837,7 @@ _BTree_set(BTree *self, PyObject *keyarg, PyObject *value,
 
         This doesn't apply to the 0th node, whos key is unused.
         */
-        int _cmp = 1;
-        TEST_KEY_SET_OR(_cmp, key, d->key) goto Error;
-        if (_cmp == 0) /* Need to replace key with first key from child */
+        if (key_is_node_key) /* Need to replace key with first key from child */
         {
             Bucket *bucket;
 
